@@ -11,7 +11,10 @@ variable {K A F N C S H : Type} [DecidableEq K] [DecidableEq S] [DecidableEq N] 
 
 abbrev Cache (K C S N H : Type) := K × Stamp S N H → Option C
 
-variable (fx : Facts) (mv : C → C → C) (exec : A → List (N × C) → C) (ruleSer : A → S) (pathSer : C → H)
+variable (fx : Facts) (mv : C → C → C) (rs : C → C → C) (exec : A → List (N × C) → C) (ruleSer : A → S) (pathSer : C → H)
+
+/-- Restoring as coded for declared outputs: the cached artifact replaces whatever was there. -/
+def rsCoded {C : Type} (_old new : C) : C := new
 
 /-- (plz-out, cache, ran?) after one `buildTarget` with the cache configured. -/
 def buildOneC (r : Repo K A F N C) (out : Out K C S N H) (cache : Cache K C S N H) (t : Target K A F) :
@@ -25,7 +28,11 @@ def buildOneC (r : Repo K A F N C) (out : Out K C S N H) (cache : Cache K C S N 
       | none => false
     if upToDate then (out, cache, false)
     else match cache (t.key, st) with
-      | some c => (fun j => if j = t.key then some (c, st) else out j, cache, false)      -- restored, nothing runs
+      | some c =>                                                         -- restored, nothing runs
+        let placed := match out t.key with
+          | some (c0, _) => rs c0 c      -- `rs old restored`: what is in plz-out after restoring over an old output
+          | none => c
+        (fun j => if j = t.key then some (placed, st) else out j, cache, false)
       | none =>
         let out' := (buildOne fx mv exec ruleSer pathSer r out t).1
         let cache' : Cache K C S N H := fun q =>
@@ -37,12 +44,12 @@ def buildListC (r : Repo K A F N C) (sel : K → Bool) :
   | [], out, cache => (out, cache, [])
   | t :: ts, out, cache =>
     if sel t.key then
-      let (out', cache', ran) := buildOneC fx mv exec ruleSer pathSer r out cache t
+      let (out', cache', ran) := buildOneC fx mv rs exec ruleSer pathSer r out cache t
       let (out'', cache'', rs) := buildListC r sel ts out' cache'
       (out'', cache'', if ran then t.key :: rs else rs)
     else buildListC r sel ts out cache
 
 def buildC (r : Repo K A F N C) (sel : K → Bool) (out : Out K C S N H) (cache : Cache K C S N H) :=
-  buildListC fx mv exec ruleSer pathSer r sel r.targets out cache
+  buildListC fx mv rs exec ruleSer pathSer r sel r.targets out cache
 
 end PlzVerif.Build
